@@ -178,6 +178,12 @@ func (s *slp) loc(e ast.Expr) (string, error) {
 }
 
 func (s *slp) read(n ast.Node, loc string) (string, error) {
+	if strings.HasPrefix(loc, "fld:") {
+		sf := strings.SplitN(loc[4:], ".", 2)
+		if sf[0] != s.recv && s.written[sf[1]] {
+			return "", s.errf(n, "%s is read after the receiver's field %s was written (the receiver may alias %s)", loc[4:], sf[1], sf[0])
+		}
+	}
 	if v, ok := s.env[loc]; ok {
 		return v, nil
 	}
